@@ -27,30 +27,37 @@ Inductive item := Own (e : err) | Req (t : file) (e : err).
 
 (* repairs (DESIGN 6 rows 12a, 12b, 12, the empty-file shortcut found in round 1, the round-2 repairs of the classes
    unhidden, watched_dirty and outside_file, and the repair of C02's finding open_text_not_disk: the text carried by
-   didOpen is analysed); all false = the code before any fix: commit *)
+   didOpen is analysed; the round-6 repair of the class changed_unknown); all false = the code before any fix: commit *)
 Record fixes := { fix12a : bool; fix12b : bool; fix_index : bool; fix_empty : bool;
                   fix_unhidden : bool;     (* fixes/C08-unhidden.diff: fileChangeCleanMap, re-hidden by pushAllDiagnosticsAgain *)
                   fix_watched : bool;      (* fixes/C08-watched-dirty.diff: a watched-file event keeps the live entries *)
                   fix_outside : bool;      (* fixes/C08-outside-file.diff: a file outside the workspace joins / leaves the
                                               project like any other file (full re-analysis on didOpen and didClose) *)
-                  fix_didopen : bool }.    (* fixes/C02-didopen-analysed.diff: didOpen compares the text it carries with the
+                  fix_didopen : bool;      (* fixes/C02-didopen-analysed.diff: didOpen compares the text it carries with the
                                               file and, when they differ, runs the live analysis of a didChange on it *)
+                  fix_changed_unknown : bool }. (* fixes/C08-changed-unknown.diff: HandleFileEventChanges handles "changed"
+                                              said of a path that is not a file of the project like "created" *)
 Definition no_fix : fixes := {| fix12a := false; fix12b := false; fix_index := false; fix_empty := false;
-                                fix_unhidden := false; fix_watched := false; fix_outside := false; fix_didopen := false |}.
+                                fix_unhidden := false; fix_watched := false; fix_outside := false; fix_didopen := false; fix_changed_unknown := false |}.
 Definition all_fix : fixes := {| fix12a := true; fix12b := true; fix_index := true; fix_empty := true;
-                                 fix_unhidden := true; fix_watched := true; fix_outside := true; fix_didopen := true |}.
+                                 fix_unhidden := true; fix_watched := true; fix_outside := true; fix_didopen := true; fix_changed_unknown := true |}.
 (* the code of round 1: fix: commits 0734f52 12a, af1552a 12b, 85b8991 empty shortcut, ec76861 index *)
 Definition round1 : fixes := {| fix12a := true; fix12b := true; fix_index := true; fix_empty := true;
-                                fix_unhidden := false; fix_watched := false; fix_outside := false; fix_didopen := false |}.
+                                fix_unhidden := false; fix_watched := false; fix_outside := false; fix_didopen := false; fix_changed_unknown := false |}.
 (* round 1 + fixes/C08-unhidden.diff + fixes/C08-watched-dirty.diff *)
 Definition round2 : fixes := {| fix12a := true; fix12b := true; fix_index := true; fix_empty := true;
-                                fix_unhidden := true; fix_watched := true; fix_outside := false; fix_didopen := false |}.
+                                fix_unhidden := true; fix_watched := true; fix_outside := false; fix_didopen := false; fix_changed_unknown := false |}.
 (* round 2 + fixes/C08-outside-file.diff: the seven repairs of C08's own findings, didOpen still not analysed *)
 Definition round3 : fixes := {| fix12a := true; fix12b := true; fix_index := true; fix_empty := true;
-                                fix_unhidden := true; fix_watched := true; fix_outside := true; fix_didopen := false |}.
-(* the repairs that are in /repo now: all eight *)
+                                fix_unhidden := true; fix_watched := true; fix_outside := true; fix_didopen := false; fix_changed_unknown := false |}.
+(* round 3 + fixes/C02-didopen-analysed.diff: the code before the changed-unknown repair *)
+Definition round4 : fixes := {| fix12a := true; fix12b := true; fix_index := true; fix_empty := true;
+                                fix_unhidden := true; fix_watched := true; fix_outside := true; fix_didopen := true;
+                                fix_changed_unknown := false |}.
+(* the repairs that are in /repo now: all nine *)
 Definition deployed : fixes := {| fix12a := true; fix12b := true; fix_index := true; fix_empty := true;
-                                  fix_unhidden := true; fix_watched := true; fix_outside := true; fix_didopen := true |}.
+                                  fix_unhidden := true; fix_watched := true; fix_outside := true; fix_didopen := true;
+                                  fix_changed_unknown := true |}.
 
 (* file sets: fmem / fadd / frem are in Model/Diag.v *)
 Definition fset_of (l : list file) : list file := fold_right fadd [] l.
@@ -202,7 +209,16 @@ Section Model.
   (* ---- HandleFileEventChanges ---- *)
   Record hflags := { h_again : list file; h_refer : list file; h_all : bool; h_third : bool }.
 
-  Definition classify_one (tincl0 : list file) (ph : proj * hflags) (ev : file * kind) : proj * hflags :=
+  (* the kind an event is handled as. [fix_changed_unknown] = repair: "changed" said of a path that is not a file of the
+     project when the loop comes to that event (allFilesMap; an earlier event of the same notification may have removed
+     it) is handled like "created": the file joins allFilesMap and the index *)
+  Definition eff_kind (p : proj) (ev : file * kind) : kind :=
+    match snd ev with
+    | KChanged => if fix_changed_unknown fx && negb (fmem (fst ev) (p_files p)) then KCreated else KChanged
+    | k => k
+    end.
+
+  Definition classify_base (tincl0 : list file) (ph : proj * hflags) (ev : file * kind) : proj * hflags :=
     let '(p, h) := ph in
     let f := fst ev in
     let '(p1, h1) :=
@@ -223,6 +239,9 @@ Section Model.
       end in
     (p1, {| h_again := h_again h1; h_refer := h_refer h1; h_all := h_all h1;
             h_third := h_third h1 || fmem f tincl0 |}).
+
+  Definition classify_one (tincl0 : list file) (ph : proj * hflags) (ev : file * kind) : proj * hflags :=
+    classify_base tincl0 ph (fst ev, eff_kind (fst ph) ev).
 
   (* returns the new project and changeDiagnostic *)
   Definition handle_events (dk : amap txt) (p : proj) (evs : list (file * kind)) : proj * bool :=
